@@ -1,6 +1,7 @@
 package main
 
 import (
+	"bytes"
 	"bufio"
 	"errors"
 	"fmt"
@@ -543,13 +544,32 @@ func edgeBatch(dir string) string {
 				for i := 0; i < 10; i++ {
 					nx, msgs, err := l.Consume(off, 2)
 					if err != nil {
-						return fmt.Sprintf("err OffsetReused v%d d=%d %s: Consume(%d): %v", ver, d, when, off, err)
+						return fmt.Sprintf("err ContentLost v%d d=%d %s: Consume(%d) of a log holding a message of %d bytes: %v", ver, d, when, off, lim-d, err)
 					}
 					for _, m := range msgs {
 						if m.Offset <= last {
 							return fmt.Sprintf("err OffsetReused v%d d=%d %s: offset %d read after %d (first Publish err=%v)", ver, d, when, m.Offset, last, err)
 						}
 						last = m.Offset
+						// content fidelity (C01): what was published is what is read, the message at the limit included
+						var wk string
+						var wv []byte
+						switch {
+						case want == 3 && m.Offset == 0:
+							wk, wv = "a", []byte("1")
+						case want == 3 && m.Offset == 1:
+							wk, wv = "b", []byte("2")
+						case want == 3 && m.Offset == 2:
+							wk, wv = "B", big
+						default:
+							wk, wv = "c", []byte("3")
+						}
+						if string(m.Key) != wk || !bytes.Equal(m.Value, wv) {
+							return fmt.Sprintf("err ContentLost v%d d=%d %s: offset %d reads key %q and a value of %d bytes, published key %q and %d bytes", ver, d, when, m.Offset, m.Key, len(m.Value), wk, len(wv))
+						}
+						if g, err := l.Get(m.Offset); err != nil || string(g.Key) != wk || !bytes.Equal(g.Value, wv) {
+							return fmt.Sprintf("err ContentLost v%d d=%d %s: Get(%d) does not return the published message: %v", ver, d, when, m.Offset, err)
+						}
 					}
 					if len(msgs) == 0 {
 						break
@@ -566,14 +586,18 @@ func edgeBatch(dir string) string {
 				return r
 			}
 			l.Close()
-			l, err = klevdb.Open(dir, o)
-			if err != nil {
-				return fmt.Sprintf("err OffsetReused v%d d=%d reopen: %v", ver, d, err)
-			}
-			r := chk(l, "after reopen")
-			l.Close()
-			if r != "" {
-				return r
+			for _, mode := range []string{"plain", "Check", "Recover"} {
+				o2 := o
+				o2.Check, o2.Recover = mode == "Check", mode == "Recover"
+				l, err = klevdb.Open(dir, o2)
+				if err != nil {
+					return fmt.Sprintf("err ContentLost v%d d=%d reopen (%s): %v", ver, d, mode, err)
+				}
+				r := chk(l, "after reopen ("+mode+")")
+				l.Close()
+				if r != "" {
+					return r
+				}
 			}
 		}
 	}
@@ -636,19 +660,53 @@ func concPollStress(dir string, iters, ms int) string {
 				done <- ""
 			}()
 		}
+		// ... and one goroutine asks Stat, NextOffset and GC over and over: none may fail or block for good (a Publish
+		// that rolls the writing segment over takes the writer lock and then the segment-list lock), and with nothing
+		// deleted the message count never goes down
+		go func() {
+			lastCount, lastNext := 0, int64(0)
+			for i := 0; !stop.Load(); i++ {
+				st, err := l.Stat()
+				if err != nil {
+					done <- "Stat: " + errClass(err) + ": " + err.Error()
+					return
+				}
+				if st.Messages < lastCount {
+					done <- fmt.Sprintf("Stat counts %d messages after %d although nothing was deleted", st.Messages, lastCount)
+					return
+				}
+				lastCount = st.Messages
+				nx, err := l.NextOffset()
+				if err != nil || nx < lastNext {
+					done <- fmt.Sprintf("NextOffset %d after %d (%v)", nx, lastNext, err)
+					return
+				}
+				lastNext = nx
+				if i%16 == 15 {
+					if err := l.GC(0); err != nil {
+						done <- "GC: " + errClass(err) + ": " + err.Error()
+						return
+					}
+				}
+			}
+			done <- ""
+		}()
 		first := ""
 		select {
 		case first = <-done:
 		case <-time.After(time.Duration(ms) * time.Millisecond):
 		}
 		stop.Store(true)
-		for k := 0; k < 7 && first == ""; k++ {
+		for k := 0; k < 8 && first == ""; k++ {
 			select {
 			case r := <-done:
 				first = r
 			case <-time.After(5 * time.Second):
-				first = "Hang"
+				first = "Hang: a call has not returned for 5 s after the load stopped"
 			}
+		}
+		if strings.HasPrefix(first, "Hang") {
+			return fmt.Sprintf("err CallFailed iteration=%d %s", it, first)
 		}
 		time.Sleep(20 * time.Millisecond)
 		l.Close()
